@@ -19,7 +19,7 @@ RULE = (
     "inside a patch before a matching (also ending below their starting scale, with an inversion method configured) and their mirror images (up to the matching scale with nf+1, inverse matching, down again); LO/NLO (thorough: NNLO), iterate-exact with 30-60 iterations (quick tier: 40); grids of 15 (quick: 10) and 25-30 "
     "points on [1e-2, 1], degree 3-4; smooth toy PDFs. Three solves per grid; the split result E2(E1 f) and the direct "
     "result E f must agree at every grid point within 1e-3 of the largest flavour at that x (plus 1e-3 of the largest "
-    "value overall times 1e-3 as absolute floor) on the fine grid, and the discrepancy on the fine grid must be smaller "
+    "value overall times 1e-3 as absolute floor) on the fine grid for x <= 0.8 (1e-2 at the interior nodes above, i.e. the last one), and the discrepancy on the fine grid must be smaller "
     "than on the coarse grid (unless both are below 1e-6). Six sevenths of the cases are cheap 'coarse-only' cases (12-point grid, LO/NLO) that cover the path shapes broadly and only assert that split and direct results agree within 3e-2 at the grid points with x <= 0.4 (5x the largest discrepancy measured there on correct code), i.e. they detect plumbing-size errors. Non-trivial = both legs change a_s by more than 5%; distinct "
     "by (order, path shape, nf0, directions of the legs)."
 )
@@ -35,6 +35,7 @@ LEVEL_TEXT = (
 )
 
 
+TOP_TOL = 1e-2  # full cases, interior nodes with x > 0.8
 COARSE_TOL = 3e-2  # 12-point grid, x <= 0.4: measured discrepancy of correct code <= 6e-3 (interpolation error of composed operators)
 
 
@@ -183,7 +184,7 @@ def check_case(case):
     order = card["order"][0]
     res.classes = [f"order={order}", f"kind={case['kind']}", f"nf0={pts[0][1]}"]
     res.key = [order, case["kind"], pts[0][1], [pts[1][0] > pts[0][0], pts[2][0] > pts[1][0]]]
-    disc = []
+    disc, top = [], []
     try:
         d1, d2 = couplings_change(card, pts)
         res.nontrivial = bool(d1 > 0.05 and d2 > 0.05)
@@ -208,8 +209,12 @@ def check_case(case):
             rel = np.max(np.abs(f2 - fd), axis=0) / (scale + floor)
             # coarse-only cases look at x <= 0.4: on 12 points the last interior nodes carry an interpolation error of
             # several percent on correct code (backward legs), while a plumbing error shows at every x
-            last = int(np.searchsorted(xs, 0.4, side="right")) if case.get("coarse_only") else len(xs) - 1
+            # full cases: the stated accuracy is claimed for x <= 0.8; the node(s) above (only the last interior one on
+            # these grids, where the toy PDFs are 1e-3 of their size) carry 1.3e-3..1.9e-3 on correct code for backward
+            # legs, independent of the number of iterations, and are held to TOP_TOL instead
+            last = int(np.searchsorted(xs, 0.4 if case.get("coarse_only") else 0.8, side="right"))
             disc.append((len(xs), float(np.max(rel[:last])), int(np.argmax(rel[:last]))))
+            top.append(float(np.max(rel[last:-1])) if last < len(xs) - 1 else 0.0)
     except (NotImplementedError, ValueError, ru.SolveRefused) as e:
         return CaseResult(discarded=f"refused:{type(e).__name__}")
     except ru.SolveCrashed as e:  # crashes are C04's verdict
@@ -230,6 +235,11 @@ def check_case(case):
             f"{ID}/split-vs-direct/kind={case['kind']}/order={order}",
             f"points {pts}: on the {n_f}-point grid split and direct evolution differ by {d_f:.3e} (relative to the largest "
             f"flavour, at grid index {j_f}); coarse {n_c}-point grid: {d_c:.3e}",
+        )
+    if not top[1] <= TOP_TOL:
+        res.fail(
+            f"{ID}/split-vs-direct-top/kind={case['kind']}/order={order}",
+            f"points {pts}: on the {n_f}-point grid split and direct evolution differ by {top[1]:.3e} at the nodes with x > 0.8 (allowed {TOP_TOL})",
         )
     if max(d_c, d_f) > 1e-6 and not d_f < d_c:
         res.fail(
